@@ -1,7 +1,7 @@
 """C05 — chunked decoding equals one-shot decoding (BER, OER, XER).
 Theorems: coq/Props/Properties_C05.v (generic chunk independence of coherent
 machines, prefix => MORE for the reference BER decoder on DER, the primitive
-BER machine and the tag-chain machine of ber_check_tags with its refutation).
+BER machine and the tag-chain machine of ber_check_tags, coherent for every chain).
 Tie: for the module corpus (lib/modcorpus.py), a module of multi-tag chains and
 a hand-written module with extensions/strings: every encoding (DER, BER
 variants with indefinite / long-form lengths and segmented OCTET STRINGs, OER,
@@ -45,7 +45,7 @@ def encodings_of_case(c, m, rng, tier):
             out.append({"syn": "ber", "label": name, "hex": bs.hex(), "v": v})
     if m["name"] == "MC5" and c["tn"] == "U" and c["der"] == "a5073005a703020105":
         # the design-round witness: an indefinite outer tag around a definite SEQUENCE.  One-shot RC_FAIL is the C03
-        # mixed-forms defect; the restarted chain check forgets the pending terminator and says RC_OK
+        # mixed-forms defect (open); a restarted chain check must say RC_FAIL as well
         v = U.Variant(rng, 0, 0, 0)
         v.chains = [(0, [2, 4], True, True)]
         out.append({"syn": "ber", "label": "mixed-witness", "hex": "a5803005a7030201050000", "v": v, "expect_oneshot_fail": True, "mixed_chain": True})
@@ -65,7 +65,7 @@ def encodings_of_case(c, m, rng, tier):
     return res
 
 
-def classify(run, m, c, e, line, o, sw, oermaps):
+def classify(run, m, c, e, line, o, sw):
     """one sweep result -> violations / known findings.  Returns True when the encoding is well-behaved one-shot."""
     syn, n = e["syn"], sw["n"]
     replay = {"module": m["text"], "type": c["tn"], "model_type": c.get("ts"), "value": c.get("vs"), "syntax": syn, "variant": e["label"],
@@ -79,18 +79,7 @@ def classify(run, m, c, e, line, o, sw, oermaps):
         if not e.get("expect_oneshot_fail"):
             run.violation("oracle:oneshot(%s)" % syn, dict(replay, what="a valid encoding is not decoded one-shot to the value with full consumption (expected OK %d %s)" % (n, c["der"])))
     # ---- 2-chunk splits
-    restart = U.indef_restart_positions(e["v"]) if e.get("v") is not None else set()
-    anyrestart = U.restart_positions(e["v"]) if e.get("v") is not None else set()
     for (s, rc, total, dereq) in sw["badsplit"]:
-        if syn == "ber" and s in restart:
-            run.known_finding("C05-ber-tagchain-restart", line)
-            continue
-        if syn == "ber" and e.get("mixed_chain") and s in anyrestart:
-            run.known_finding("C05-ber-tagchain-restart", line)
-            continue
-        if syn == "oer" and any(p + ll <= s < p + ll + ln for (p, ll, ln) in oermaps):
-            run.known_finding("C05-oer-seq-extmap-restart", line)
-            continue
         run.violation("oracle:split(%s)" % syn, dict(replay, what="fed as [0,%d)+[%d,%d): %s consumed %d value-equal=%s; one-shot: %s consumed %d"
                                                      % (s, s, n, rc, total, dereq, sw["rc"], sw["consumed"]), split=s))
     # ---- proper prefixes
@@ -212,14 +201,13 @@ def main(tier):
             run.count("enc_%s_%s" % (e["syn"], e["label"]))
             run.count("splits", sw["pts"])
             run.count("exhaustive_2split_encodings" if e["exhaustive"] else "sampled_2split_encodings")
-            oermaps = []
-            if e["syn"] == "oer" and c.get("wide"):
-                try:
-                    U.oer_walk(m["wide"], m["wide"][c["tn"]], bytes.fromhex(e["hex"]), 0, oermaps)
-                except Exception as ex:          # the walker is only a classifier; a failure classifies nothing
-                    run.count("oer_walk_failed")
-            classify(run, m, c, e, line, r, sw, oermaps)
-            oneshot[(c["tn"], e["syn"], e["hex"])] = (sw, oermaps)
+            if e["syn"] == "ber" and e.get("v") is not None:
+                if U.restart_positions(e["v"]):
+                    run.count("enc_ber_multi_tag_chain")
+                if e["v"].segmented_tagged:
+                    run.count("enc_ber_segmented_under_tag")
+            classify(run, m, c, e, line, r, sw)
+            oneshot[(c["tn"], e["syn"], e["hex"])] = sw
             if len(run.cov["samples"]) < 10 and nenc % 97 == 1:
                 run.sample({"cmd": line[:160], "c": r[:160]})
         # k-chunk schedules, n-byte feeding: both implementations of the discipline
@@ -232,26 +220,8 @@ def main(tier):
                 if r != "CRASH":
                     run.violation("oracle:feed", {"what": "unexpected driver output", "module": m["text"], "command_line": line[:3000], "c": r[:500]})
                 continue
-            sw, oermaps = oneshot[(c["tn"], e["syn"], e["hex"])]
+            sw = oneshot[(c["tn"], e["syn"], e["hex"])]
             if (got[0], int(got[1]), got[2]) == (sw["rc"], sw["consumed"], sw["der"]):
-                continue
-            # where do the chunk boundaries fall?
-            n = sw["n"]
-            if "*" in sc:
-                k = int(sc[:-1])
-                bounds = set(range(k, n, k))
-            else:
-                acc, bounds = 0, set()
-                for z in sc.split(","):
-                    acc += int(z)
-                    if 0 < acc < n:
-                        bounds.add(acc)
-            v = e.get("v")
-            if e["syn"] == "ber" and v is not None and bounds & (U.indef_restart_positions(v) | (U.restart_positions(v) if e.get("mixed_chain") else set())):
-                run.known_finding("C05-ber-tagchain-restart", line)
-                continue
-            if e["syn"] == "oer" and any(any(p + ll <= s < p + ll + ln for s in bounds) for (p, ll, ln) in oermaps):
-                run.known_finding("C05-oer-seq-extmap-restart", line)
                 continue
             run.violation("oracle:schedule(%s)" % e["syn"],
                           {"what": "schedule %s: %s; one-shot: %s %d %s" % (sc[:80], r[:200], sw["rc"], sw["consumed"], sw["der"][:80]),
@@ -273,44 +243,43 @@ def main(tier):
         # ---- the extracted machines and the More/Fail reference decoder against the C
         m3, meta3 = [], []
         for (c, e, line) in sweeps:
-            if c.get("wide") or e["syn"] != "ber" or e.get("expect_oneshot_fail") or e["v"].segmented or len(e["hex"]) > 400:
+            if c.get("wide") or e["syn"] != "ber" or e["v"].segmented or len(e["hex"]) > 400:
                 continue
             sw = oneshot.get((c["tn"], e["syn"], e["hex"]))
             if sw is None:
                 continue
-            sw = sw[0]
             n = sw["n"]
             tree = m["trees"][c["tn"]]
             # (a) ber_dec3 on the whole encoding and on sampled proper prefixes
-            for pl in sorted(set([n] + [rng.below(n) for _ in range(3)])):
+            for pl in ([] if e.get("expect_oneshot_fail") else sorted(set([n] + [rng.below(n) for _ in range(3)]))):
                 m3.append("berdec3 %s %s" % (c["ts"], e["hex"][:2 * pl] or "-"))
                 meta3.append(("dec3", c, e, sw, pl))
             # (b) the primitive machine under the schedules the C was fed with
-            if tree[0] in "bnio":
+            if tree[0] in "bnio" and not e.get("expect_oneshot_fail"):
                 for (c2, e2, sc, fl) in feeds:
                     if c2 is c and e2 is e and fl.startswith("feed "):
                         m3.append("primfeed %d %s %s" % (tree[1], e["hex"], sc))
                         meta3.append(("prim", c, e, sw, fl))
-            # (c) the tag-chain machine predicts the C's deviation on indefinite chains of a constructed type
+            # (c) the tag-chain machine against ber_check_tags itself (harness command `ctags`), on the chain of
+            # tags of a constructed type: one-shot, every cut up to the end of the chain, 1- and 2-byte feeding
             tags, t = [], tree
             while t[0] == "x":
                 tags.append(t[1])
                 t = t[2]
-            if tags and t[0] in "sqt" and e["v"].chains:
+            if t[0] in "sqt" and e["v"].chains:
                 tags.append(t[1])
-                st, ends, ind, kc = e["v"].chains[0]
-                if st == 0 and ind and len(ends) == len(tags):
-                    m3.append("chainfeed %s %s %d" % (",".join(map(str, tags)), e["hex"], n))
-                    meta3.append(("chain1", c, e, sw, None))
-                    for sp in range(ends[0], ends[-1]):
-                        m3.append("chainfeed %s %s %d" % (",".join(map(str, tags)), e["hex"], sp))
-                        meta3.append(("chain", c, e, sw, sp))
+                st, ends, ind, kc = [x for x in e["v"].chains if x[0] == 0][0]
+                if len(ends) == len(tags):
+                    for sc in [str(n)] + ["%d" % sp for sp in range(1, min(n, ends[-1] + 2))] + ["1*", "2*"]:
+                        m3.append("chainfeed %s %s %s" % (",".join(map(str, tags)), e["hex"], sc))
+                        meta3.append(("chain", c, e, sw, "ctags %s %s %s" % (c["tn"], e["hex"], sc)))
         if m3:
             rcm, mo3, me = run_lines(model, m3, timeout=1200)
             if rcm != 0 or len(mo3) != len(m3):
                 raise RuntimeError("model driver failed (C05 machines): %s %s" % (rcm, me))
             feedres = {fl: r for (c2, e2, sc, fl), r in zip(feeds, o)}
-            left1 = None
+            cl = [x for (kind, c, e, sw, x) in meta3 if kind == "chain"]
+            ctres = dict(zip(cl, run_mod(run, m, cl, "C05-ctags"))) if cl else {}
             for (kind, c, e, sw, x), l, r in zip(meta3, m3, mo3):
                 run.case(l)
                 run.count("model_" + l.split()[0])
@@ -340,19 +309,15 @@ def main(tier):
                     if not okc:
                         run.violation("correspondence:Resume.prim_step", {"what": "the primitive machine fed in chunks and the C disagree: C %s, model %s" % (" ".join(cr)[:200], r[:200]),
                                                                         "model_type": c["ts"], "command_line": l[:3000], "c_command": x[:3000]}, no_input=True)
-                elif kind == "chain1":
-                    left1 = int(r.split()[3][5:]) if r.startswith("OK") else None
                 elif kind == "chain":
-                    f = r.split()
-                    if left1 is None or f[0] != "OK":
-                        continue
-                    lost = int(f[3][5:]) - left1            # end-of-contents pairs the restarted machine forgets
-                    bs = [b for b in sw["badsplit"] if b[0] == x]
-                    pred = sw["consumed"] - 2 * lost
-                    got = bs[0][2] if bs else sw["consumed"]
-                    if sw["rc"] == "OK" and (got != pred or (bs and bs[0][1] != "OK")):
-                        run.violation("correspondence:Resume.chain_step", {"what": "split at %d: the tag-chain machine forgets %d end-of-contents pair(s), so the C should stop at %d; it reports %s" % (x, lost, pred, bs[0] if bs else "the one-shot result"),
-                                                                         "model_type": c["ts"], "command_line": l[:3000]}, no_input=True)
+                    run.case(x)
+                    run.count("c_ctags")
+                    cr = ctres.get(x, "")
+                    if cr != r:
+                        # a disagreement on RC_OK/RC_FAIL/consumed is a failing input of the property only if the
+                        # chunked run also differs from the one-shot run of the C (then oracle:split reports it)
+                        run.violation("correspondence:Resume.chain_step", {"what": "ber_check_tags fed in chunks and the tag-chain machine disagree: C %s, model %s" % (cr[:200], r[:200]),
+                                                                         "model_type": c["ts"], "command_line": l[:3000], "c_command": x[:3000]}, no_input=True)
         if ml:
             rcm, mo, me = run_lines(model, ml, timeout=1200)
             for (c, e), l, r in zip(meta, ml, mo):
@@ -362,7 +327,6 @@ def main(tier):
                 f = r.split()
                 if sw is None:
                     continue
-                sw = sw[0]
                 exp_ok = f[0] == "OK" and int(f[1]) == sw["n"] and f[2] == c["vs"]
                 c_ok = sw["rc"] == "OK" and sw["consumed"] == sw["n"] and sw["der"] == c["der"]
                 if exp_ok != c_ok and "t" not in c["ts"]:
@@ -383,7 +347,7 @@ def main(tier):
                       extra_cov={"theorems": names, "modules": len(mods) + 2, "encodings": nenc,
                                  "rule": "one case = one driver command: a sweep (one encoding: one-shot + every/sampled 2-chunk split + every such proper prefix), one chunk schedule through one implementation of the feeding discipline, or one reference-decoder line; distinct command lines",
                                  "traces_validated_against_impl": run.cov["evaluations"]},
-                      assumptions=["machines proved coherent: primitive BER decoder, tag-chain check; SEQUENCE/SET OF/CHOICE bodies, constructed-string stack, OER and XER decoders are covered by the tie only (partial)",
+                      assumptions=["machines proved coherent: primitive BER decoder, tag-chain check (any number of tags); SEQUENCE/SET OF/CHOICE bodies, constructed-string stack, OER and XER decoders are covered by the tie only (partial)",
                                    "split points are exhaustive for encodings up to the tier's bound (quick 400, thorough 3000 octets), sampled beyond"])
 
 
